@@ -111,6 +111,58 @@ def readouts(ch, kind):
     return out
 
 
+SKIP_ATTRS = {"rng", "posterior", "grad", "ProgressPrinter"}
+
+
+def state_dump(o, depth=0):
+    """Every attribute of the sampler (recursively through Parameter / EpsilonSelector / Bounds / mass
+    objects), normalised so that list vs array and int vs float of equal value compare equal; callables
+    are represented by their name (the selected proposal / leapfrog / bounds map is state)."""
+    if o is None or isinstance(o, (bool, str)):
+        return o
+    if isinstance(o, (int, float, np.integer, np.floating)):
+        return float(o)
+    if isinstance(o, np.ndarray):
+        return state_dump(o.tolist(), depth)
+    if isinstance(o, (list, tuple)):
+        return [state_dump(v, depth) for v in o]
+    if isinstance(o, dict):
+        return {str(k): state_dump(v, depth) for k, v in o.items()}
+    if callable(o) and not hasattr(o, "__dict__") or hasattr(o, "__func__"):
+        return "<callable %s>" % getattr(o, "__name__", type(o).__name__)
+    if hasattr(o, "__dict__") and depth < 3:
+        out = {"__class__": type(o).__name__}
+        for k, v in vars(o).items():
+            if k in SKIP_ATTRS:
+                continue
+            out[k] = state_dump(v, depth + 1)
+        return out
+    return "<%s>" % type(o).__name__
+
+
+def state_diff(a, b, path=""):
+    """path of the first difference between two state dumps, or None"""
+    if isinstance(a, dict) and isinstance(b, dict):
+        for k in sorted(set(a) | set(b)):
+            if k not in a or k not in b:
+                return f"{path}.{k} (present on one side only)"
+            d = state_diff(a[k], b[k], f"{path}.{k}")
+            if d:
+                return d
+        return None
+    if isinstance(a, list) and isinstance(b, list):
+        if len(a) != len(b):
+            return f"{path} (length {len(a)} vs {len(b)})"
+        for i, (x, y) in enumerate(zip(a, b)):
+            d = state_diff(x, y, f"{path}[{i}]")
+            if d:
+                return d
+        return None
+    if isinstance(a, float) and isinstance(b, float) and a != a and b != b:
+        return None
+    return None if a == b else f"{path} ({a!r} vs {b!r})"
+
+
 def first_diff(a, b):
     for k in a:
         if k not in b or a[k] != b[k]:
@@ -148,6 +200,9 @@ def scenario(rep, r, kind, cfg, k1, k2, frozen, tmpdir, tag):
     d = first_diff(readouts(twin, kind), readouts(loaded, kind))
     if d is not None:
         fails.append(f"reloaded sampler reports a different `{d}` than the original (saved after {k1} steps)")
+    sd = state_diff(state_dump(twin), state_dump(loaded))
+    if sd is not None:
+        fails.append(f"state of the reloaded sampler differs from the original at `{sd}` (saved after {k1} steps)")
     # continuation: reloaded object vs model (frozen, exact) and vs the twin (always)
     try:
         if frozen:
